@@ -37,7 +37,7 @@ find_from = Fn(
     F_DFA, 'CompiledDfa', 'find_from', ret='res',
     spec='''
 requires
-    wf(*old(self)),
+    wf(core(*old(self))),
     char_indices.obeys_prophetic_iter_laws(), char_indices.decrease() is Some,
     cls_functional(match_char_class),
     exists|n: int| ci_at(char_indices.remaining(), input@, n),
@@ -48,14 +48,14 @@ ensures
     final(self).lookaheads == old(self).lookaheads,
     final(self).patterns == old(self).patterns,
     forall|n: int| ci_at(char_indices.remaining(), input@, n) ==>
-        find_post(*old(self), cls_of(match_char_class), input@.skip(n), blen(input@.take(n)), res),
+        find_post(core(*old(self)), cls_of(match_char_class), input@.skip(n), blen(input@.take(n)), res),
 decreases (if old(self).lookaheads@.len() == 0 { 0int } else { 1int }), 1int
 ''',
     props=['C01', 'C04', 'C05', 'C07', 'C12'],
     edits=[
         Ins('body_start', None, '''
 broadcast use axiom_clen_bounds, axiom_terminal_id_key_model, axiom_fx_valid;
-let ghost d = *self;
+let ghost d = core(*self);
 let ghost cls = cls_of(match_char_class);
 let ghost rem0 = char_indices.remaining();
 let ghost n0 = choose|n: int| ci_at(rem0, input@, n);
@@ -261,7 +261,7 @@ priority_of = Fn(
     F_DFA, 'CompiledDfa', 'priority_of', ret='r',
     spec='''
 requires self.terminal_ids@.contains(terminal_id)
-ensures is_prio(self.terminal_ids@, terminal_id, r as int), r as int == prio(*self, terminal_id)
+ensures is_prio(self.terminal_ids@, terminal_id, r as int), r as int == prio(core(*self), terminal_id)
 ''',
     props=['C01', 'C05', 'C07'],
     edits=[
@@ -289,7 +289,7 @@ ensures is_prio(self.terminal_ids@, terminal_id, r as int), r as int == prio(*se
             assert(!g(*rem[j]));
         }
         assert(is_prio(self.terminal_ids@, terminal_id, k));
-        lemma_prio_unique(self.terminal_ids@, terminal_id, k, prio(*self, terminal_id));
+        lemma_prio_unique(self.terminal_ids@, terminal_id, k, prio(core(*self), terminal_id));
     }
     __t0.unwrap()
 }''', why='closure pattern `|&id|` bound to a variable and hoisted (E3); iter().position(..).unwrap() chain split (E6)'),
@@ -299,13 +299,13 @@ satisfies_lookahead = Fn(
     F_LA, 'CompiledLookahead', 'satisfies_lookahead', ret='res',
     spec='''
 requires
-    wf_flat(*old(self).nfa), old(self).nfa.lookaheads@.len() == 0,
+    wf_flat(core(*old(self).nfa)), old(self).nfa.lookaheads@.len() == 0,
     char_indices.obeys_prophetic_iter_laws(), char_indices.decrease() is Some,
     cls_functional(match_char_class),
     exists|n: int| ci_at(char_indices.remaining(), input@, n),
 ensures
     forall|n: int| ci_at(char_indices.remaining(), input@, n) ==> {
-        let d = *old(self).nfa; let rest = input@.skip(n); let cls = cls_of(match_char_class);
+        let d = core(*old(self).nfa); let rest = input@.skip(n); let cls = cls_of(match_char_class);
         &&& res.0 == (old(self).is_positive == has_match(d, cls, rest))
         &&& has_match(d, cls, rest) ==> res.1 == blen(rest.take(longest(d, cls, rest)))
         &&& !has_match(d, cls, rest) ==> res.1 == 0
@@ -316,7 +316,7 @@ decreases 1int, 0int
     edits=[
         Ins('body_start', None, '''
 broadcast use axiom_clen_bounds, axiom_terminal_id_key_model, axiom_fx_valid;
-let ghost d = *self.nfa;
+let ghost d = core(*self.nfa);
 let ghost rem = char_indices.remaining();
 proof { lemma_len0_no_key(d); }
 '''),
